@@ -11,15 +11,17 @@ import (
 
 func init() {
 	registerProperty(&Property{
-		ID: "C06",
-		Explanation: "Decides structural necessary conditions of failure surfacing: (R1) from every goroutine entry of the executors (Executor.Run implementations, the worker's RPC handlers, and every goroutine they spawn), each call that can reach user code — slicefunc.Func.Call, a task's Partitioner, Invocation.Invoke, a Read on a reader produced by task.Do or by the combiner's reducing merge, and every module function that transitively contains such a call — executes inside an activation that installed `defer func(){ recover() }` on all paths before the call; (R2) a shared combine buffer taken from its channel is put back by a defer whenever a user-reaching call sits between take and put; (R3) the two operators that receive a user error keep end-of-stream and temporary errors as they are and wrap everything else Fatal, store it sticky, and the writer's error cannot mask a read error; (R4 = C02-R2) fatal errors make the task ERR, everything else LOST; (R5) every recover handler formats the recovered value into the error it reports, with Fatal severity; (R6) the worker marks a task OK only on the path where its run returned no error. Not decided: retry counts actually observed, session reuse afterwards, crashes for other reasons than an unrecovered panic.",
+		ID:          "C06",
+		Explanation: "Decides structural necessary conditions of failure surfacing: (R1) from every goroutine entry of the executors (Executor.Run implementations, the worker's RPC handlers, and every goroutine they spawn), each call that can reach user code — slicefunc.Func.Call, a task's Partitioner, Invocation.Invoke, a Read on a reader produced by task.Do or by the combiner's reducing merge, and every module function that transitively contains such a call — executes inside an activation that installed `defer func(){ recover() }` on all paths before the call; (R2) a shared combine buffer taken from its channel is put back by a defer whenever a user-reaching call sits between take and put; (R3) the two operators that receive a user error keep end-of-stream and temporary errors as they are and wrap everything else Fatal, store it sticky, and the writer's error cannot mask a read error; (R4 = C02-R2) fatal errors make the task ERR, everything else LOST; (R5) every recover handler formats the recovered value into the error it reports, with Fatal severity; (R6) the worker marks a task OK only on the path where its run returned no error; (R7) when a combining task fails, the worker-resident combine buffers it fed are discarded and the combine key returns to its initial state, so that a retry does not add the same rows again. Not decided: retry counts actually observed, session reuse afterwards, crashes for other reasons than an unrecovered panic.",
 		Rules: []Rule{
 			{ID: "C06-R1", Doc: "recover covers every user-reaching call", Run: c06r1},
 			{ID: "C06-R2", Doc: "channel-held combiners survive a panic", Run: c06r2},
 			{ID: "C06-R3", Doc: "application errors are fatal unless temporary or end-of-stream", Run: c06r3},
 			{ID: "C02-R2", Doc: "fatal => ERR, else LOST (shared)", Run: c02r2},
+			{ID: "C03-R4", Doc: "retries are bounded per run of consecutive losses; a success ends the run (shared)", Run: c03r4},
 			{ID: "C06-R5", Doc: "panic text is kept, with fatal severity", Run: c06r5},
 			{ID: "C06-R6", Doc: "worker never reports a half-run task OK", Run: c06r6},
+			{ID: "C06-R7", Doc: "a failed combining attempt leaves nothing behind for its retry", Run: c06r7},
 		},
 	})
 }
